@@ -184,7 +184,11 @@ def main(argv=None):
             elif st == 'error':
                 engine_errors.append((r['contract'], o['name'] + ': ' + o.get('detail', '')))
             else:
-                undecided.append((r['contract'], o['name'] + ' :: ' + str(o.get('detail', ''))[:200]))
+                kf = match_known(known_open, r['contract'], o['name'])
+                if kf is not None:
+                    known_hits.append((kf, r['contract'], o))
+                else:
+                    undecided.append((r['contract'], o['name'] + ' :: ' + str(o.get('detail', ''))[:200]))
     # ---- report
     exit_code = 0
     seen_kf = set()
